@@ -49,7 +49,7 @@ fn check_enhanced<const N: usize>() {
     let now = any_now();
     let cfg = any_config(SchedulingMode::Enhanced);
     let vals: [ConnVals; N] = core::array::from_fn(|_| {
-        let mut v = any_vals(SYM_FULL);
+        let mut v = any_vals(SYM_LEAF);
         kani::assume(now.saturating_sub(v.quality_at_ms) < 50); // cached multiplier is what the selector uses
         // Score factors are drawn from a grid (stated bound): SAT does not finish on the comparison of two
         // fully symbolic f64 product pipelines (selector vs oracle); over a grid it does.  The grid contains
@@ -61,12 +61,6 @@ fn check_enhanced<const N: usize>() {
             2 => 1.0,
             3 => 1.1,
             _ => 1.1 * 1.03,
-        };
-        let ck: u8 = kani::any();
-        v.rtt_min_ms = match ck % 3 {
-            0 => 0.1,
-            1 => 0.5,
-            _ => 1.0,
         };
         let sk: u8 = kani::any();
         v.consecutive_acks_without_nak = match sk % 6 {
